@@ -290,6 +290,36 @@ def allowed {S : Scheme} {Ω : Type} (w : World S Ω) (m : Msg) (a : Addr) : Boo
     | .appStake p true => a != p && w.isApp a
     | _ => false
 
+/-! ## Message-level signer checks of the node handlers
+
+`MsgBeginUnstake` and `MsgUnjail` *name* their signer (`msg.Signer`) and list it first in
+`GetSigners()`, so for them the ante handler only establishes "the key belongs to `msg.Signer` or to
+the node"; the authorization proper is `ValidateValidatorMsgSigner` in the handler.  For `MsgStake`
+the handler re-checks the verifying key's address against the new and the current record. -/
+
+/-- `ValidateValidatorMsgSigner(validator, signerAddress)`: operator, or the output address when the
+record has one. -/
+def validateValidatorMsgSigner (operator : Addr) (output : Option Addr) (signer : Addr) : Bool :=
+  match output with
+  | none => signer == operator
+  | some o => signer == operator || signer == o
+
+/-- The signer part of `ValidateValidatorStaking(ctx, validatorNew, amount, signerAddress)`:
+`cur` = the stored record's output address if the node exists (`GetValidator`), `newOut` = the
+message's output address.  Mirrors `skipMsgSignerValidation`, the check against the new record, the
+nil-output rule after NCUST and the check against the current record. -/
+def stakeSignerChecks (ncust oedit : Bool) (operator : Addr) (cur : Option (Option Addr))
+    (newOut : Option Addr) (signer : Addr) : Bool :=
+  let skip :=
+    match cur with
+    | some curOut => ncust && oedit && newOut.isSome && curOut != newOut && curOut == some signer
+    | none => false
+  (skip || validateValidatorMsgSigner operator newOut signer) &&
+    (!ncust || newOut.isSome) &&
+    (match cur with
+     | some curOut => validateValidatorMsgSigner operator curOut signer
+     | none => true)
+
 /-! ## `DeductFees` -/
 
 /-- `SetCoins`. -/
